@@ -1,4 +1,5 @@
 import ExaModel.Lemmas.PackSpec
+import ExaModel.Lemmas.PackRib
 set_option linter.unusedSimpArgs false
 set_option linter.unusedVariables false
 /-!
@@ -25,6 +26,9 @@ What is proved, and what is NOT true of the unchanged code:
   `c09_mixed_mp_raises` (every route fits alone, `RuntimeError` all the same, F19).  So the
   property is proved as the named parts below; the two witnesses are replayed on the real code by
   harness/props/C09.py (corpus/C09/f19-*.json).
+* `c09_partial` assembles the parts into the property itself for the collections the RIB really
+  builds (`RibShaped`: one kind of NLRI per collection), where `c09_rib_shaped_runs_to_end` shows
+  that `FitsAlone` does imply `status = ok`.
 * "parses on its own" is about bytes; it is checked by the correspondence run (real decoder on
   every emitted message), not by this size model.
 -/
@@ -174,6 +178,58 @@ theorem c09_gives_up_before_first_message (i : Input) (hp : PosSizes i) (h : (pa
   have := packRaw_noRoom i hp hraw
   simp [pack, this, cut]
 
+/-- **The collections the RIB builds run to the end.** `OutgoingRIB.updates` only ever builds
+    collections of one kind — classic IPv4 NLRIs only, or NLRIs of MP families with announces or
+    withdraws but not both (`RibShaped`).  For those, when every NLRI fits alone (and the attributes
+    leave any room at all, on a session whose maximum is at most 65535), `messages` ends normally:
+    no `RuntimeError`, no `struct.error`, no silent give-up. -/
+theorem c09_rib_shaped_runs_to_end (i : Input) (hfit : FitsAlone i) (hM : i.M ≤ 65535)
+    (hroom : 23 + chosenAttr i < i.M) (hs : RibShaped i) : (pack i).status = .ok := by
+  have hraw := packRaw_rib_ok i hfit hroom hs
+  have hc := cut_ok (packRaw i).msgs (fun m hm => Nat.le_trans (packRaw_fits i hfit m hm) hM)
+  simp [pack, hc, hraw]
+
+/-- **C09 in full for the collections the RIB builds** (`c09_partial`: the missing part of the
+    property as worded — arbitrary MIXED collections — is false of the unchanged code, see
+    `c09_mixed_mp_raises`).  When every NLRI fits alone: every message is within the negotiated
+    maximum; the messages announce exactly the requested routes of negotiated families, each in a
+    message that carries the attribute block, MP routes under their own next hop; they withdraw
+    exactly the requested withdrawals (none without `include_withdraw`); nothing else. -/
+theorem c09_partial (i : Input) (hfit : FitsAlone i) (hp : PosSizes i) (hf : FamCover i) (hM : i.M ≤ 65535)
+    (hroom : 23 + chosenAttr i < i.M) (hs : RibShaped i) :
+    (∀ m ∈ (pack i).msgs, m.len ≤ i.M) ∧
+    (∀ x, (∃ m ∈ (pack i).msgs, x ∈ m.annsOf) ↔ (x ∈ i.anns ∧ x.fam ∈ i.negotiated)) ∧
+    (∀ m ∈ (pack i).msgs, m.annsOf ≠ [] → m.attrs = true) ∧
+    (∀ x, (∃ m ∈ (pack i).msgs, x ∈ m.wdsOf) ↔
+        (x ∈ i.wds ∧ x.fam ∈ i.negotiated ∧ i.includeWithdraw = true)) ∧
+    (∀ m ∈ (pack i).msgs, ∀ r, m.reach = some r →
+        ∀ x ∈ r.items, x.fam = r.fam ∧ x.nh = r.nh ∧ x.nhLen = r.nhLen) := by
+  have hok := c09_rib_shaped_runs_to_end i hfit hM hroom hs
+  have hc := c09_complete i hp hf hok
+  refine ⟨c09_fits i hfit, ?_, ?_, ?_, ?_⟩
+  · intro x
+    constructor
+    · rintro ⟨m, hm, hx⟩; exact (c09_nothing_else i m hm).1 x hx
+    · rintro ⟨hx, hn⟩
+      obtain ⟨m, hm, hxm, _⟩ := hc.1 x hx hn
+      exact ⟨m, hm, hxm⟩
+  · intro m hm hne
+    have s := packRaw_sections i m (pack_sub i m hm)
+    rcases s.att with h | ⟨h0, hr⟩
+    · exact h
+    · exfalso
+      apply hne
+      rw [annsOf_eq, hr]
+      have : Pos m.ann4 := fun y hy => hp.1 y (List.mem_filter.1 (s.a4 y hy)).1
+      simp [(sz_eq_zero_of_pos this).1 h0]
+  · intro x
+    constructor
+    · rintro ⟨m, hm, hx⟩; exact (c09_nothing_else i m hm).2.1 x hx
+    · rintro ⟨hx, hn, hi⟩
+      exact hc.2 hi x hx hn
+  · intro m hm r hr x hx
+    exact ((c09_own_nexthop i m hm).1 r hr).2 x hx
+
 /-! ## The excluded points (F19): `decide` witnesses, replayed on the real code -/
 
 /-! `unfitInput` and `mixedInput` are defined next to the model (`Model/Pack.lean`); the harness
@@ -221,6 +277,13 @@ example : ((pack demo).msgs.map (fun m => (m.wd4.map (·.id), m.ann4.map (·.id)
      ([], [], [25], []), ([], [], [26], [29])] := by decide
 /-- the route of the family that is not negotiated (id 7) is in no message -/
 example : ∀ m ∈ (pack demo).msgs, ∀ x ∈ m.annsOf, x.id ≠ 27 := by decide
+/-- `c09_partial` is not vacuous: 13 IPv4 announces needing two messages; an MP family with two next hops -/
+example : let i := { demo with anns := (List.range 13).map (fun k => v4 (k + 1) 5), wds := [] }
+    FitsAlone i ∧ PosSizes i ∧ FamCover i ∧ RibShaped i ∧ 23 + chosenAttr i < i.M ∧ (pack i).msgs.length = 2 := by decide
+example : let i := { demo with anns := [v6 25 3 1, v6 26 3 2, v6 27 17 1], wds := [] }
+    FitsAlone i ∧ PosSizes i ∧ FamCover i ∧ RibShaped i ∧ 23 + chosenAttr i < i.M ∧ (pack i).msgs.length = 2 := by decide
+/-- `demo` itself is mixed (not `RibShaped`), and `mixedInput` is why the hypothesis is there -/
+example : ¬ RibShaped demo ∧ ¬ RibShaped mixedInput := by decide
 /-- `c09_no_room` is not vacuous: a request, attributes that fill the message, no output -/
 example : (pack { demo with attrDef := 77 }).msgs = [] ∧ (pack { demo with attrDef := 77 }).status = .noRoom := by decide
 /-- only MP withdraws: the attribute block without defaults is chosen -/
